@@ -309,3 +309,87 @@ fn native_mdl_damaged_nopanic() {
     }
     s.finish("native_mdl_damaged_nopanic");
 }
+
+fn nmd_bytes(n: usize, seed: u32, finite_halves: bool) -> Vec<u8> {
+    let mut x = seed.wrapping_mul(2654435761).wrapping_add(99);
+    let mut v: Vec<u8> = (0..n).map(|_| { x = x.wrapping_mul(1664525).wrapping_add(1013904223); (x >> 24) as u8 }).collect();
+    if finite_halves { let mut i = 1; while i < n { v[i] &= 0xBF; i += 2; } } // clear the top exponent bit of every little-endian half: finite values only
+    v
+}
+/// the vertex whose attributes are the decodings of pseudo-random stored bytes under the given declaration (canonical values: every codec reproduces them)
+fn nmd_vertex(elements: &[VertexElement], k: usize, salt: u32) -> Vertex {
+    let mut vx = Vertex::default();
+    for (ei, e) in elements.iter().enumerate() {
+        let seed = (k as u32).wrapping_mul(131).wrapping_add(ei as u32 * 17).wrapping_add(salt);
+        let f = |i: u32| ((seed.wrapping_mul(7919).wrapping_add(i * 104729) % 2001) as f32 - 1000.0) / 8.0;
+        match (e.vertex_usage, e.vertex_type) {
+            (VertexUsage::Position, VertexType::Single3) => vx.position = [f(0), f(1), f(2)],
+            (VertexUsage::Position, VertexType::Single4) => vx.position = [f(0), f(1), f(2)],
+            (VertexUsage::Position, VertexType::Half4) => { let b = nmd_bytes(8, seed, true); vx.position.clone_from_slice(&MDL::read_half4(&mut Cursor::new(&b[..])).unwrap()[0..3]); }
+            (VertexUsage::BlendWeights, VertexType::ByteFloat4) => { let b = nmd_bytes(4, seed, false); vx.bone_weight = MDL::read_byte_float4(&mut Cursor::new(&b[..])).unwrap(); }
+            (VertexUsage::BlendIndices, VertexType::Byte4) => { let b = nmd_bytes(4, seed, false); vx.bone_id = [b[0], b[1], b[2], b[3]]; }
+            (VertexUsage::Normal, VertexType::Half4) => { let b = nmd_bytes(8, seed, true); vx.normal.clone_from_slice(&MDL::read_half4(&mut Cursor::new(&b[..])).unwrap()[0..3]); }
+            (VertexUsage::Normal, VertexType::Single3) => vx.normal = [f(0), f(1), f(2)],
+            (VertexUsage::UV, VertexType::Half4) => { let b = nmd_bytes(8, seed, true); let c = MDL::read_half4(&mut Cursor::new(&b[..])).unwrap(); vx.uv0 = [c[0], c[1]]; vx.uv1 = [c[2], c[3]]; }
+            (VertexUsage::UV, VertexType::Single4) => { vx.uv0 = [f(0), f(1)]; vx.uv1 = [f(2), f(3)]; }
+            (VertexUsage::BiTangent, VertexType::ByteFloat4) => { let b = nmd_bytes(4, seed, false); vx.bitangent = MDL::read_tangent(&mut Cursor::new(&b[..])).unwrap(); }
+            (VertexUsage::Color, VertexType::ByteFloat4) => { let b = nmd_bytes(4, seed, false); vx.color = MDL::read_byte_float4(&mut Cursor::new(&b[..])).unwrap(); }
+            other => panic!("variant uses a pair the writer does not support: {other:?}"),
+        }
+    }
+    vx
+}
+fn nmd_el(stream: u8, offset: u8, t: VertexType, u: VertexUsage) -> VertexElement { VertexElement { stream, offset, vertex_type: t, vertex_usage: u, usage_index: 0 } }
+fn nmd_variants() -> Vec<(Vec<VertexElement>, [u8; 3])> {
+    use VertexType::*; use VertexUsage::*;
+    vec![
+        (vec![nmd_el(0, 0, Single3, Position), nmd_el(0, 12, ByteFloat4, BlendWeights), nmd_el(0, 16, Byte4, BlendIndices), nmd_el(1, 0, Single3, Normal), nmd_el(1, 12, ByteFloat4, BiTangent), nmd_el(1, 16, ByteFloat4, Color), nmd_el(1, 20, Single4, UV)], [20, 36, 0]),
+        (vec![nmd_el(0, 0, Half4, Position), nmd_el(0, 8, ByteFloat4, BlendWeights), nmd_el(0, 12, Byte4, BlendIndices), nmd_el(1, 0, Half4, Normal), nmd_el(1, 8, ByteFloat4, BiTangent), nmd_el(1, 12, ByteFloat4, Color), nmd_el(1, 16, Half4, UV)], [16, 24, 0]),
+        (vec![nmd_el(1, 8, Single3, Normal), nmd_el(0, 0, Single4, Position), nmd_el(1, 0, Half4, UV)], [16, 20, 0]),
+        (vec![nmd_el(0, 4, Single3, Position), nmd_el(0, 0, Byte4, BlendIndices), nmd_el(1, 4, Single4, UV), nmd_el(1, 0, ByteFloat4, Color), nmd_el(1, 20, ByteFloat4, BlendWeights)], [16, 24, 0]),
+    ]
+}
+
+//@unit props=C07,C06 label=B tier=quick native=1 fn=model::MDL::{write_to_buffer,from_existing,update_headers} bound="by execution: resources/tests/c0201e0038_top_zeroed.mdl with the declaration of one mesh (mesh 1 of LOD 0, mesh 5 of LOD 2) rewritten to each of 4 layouts (every (usage, type) pair the writer supports, interleaved element order, two streams) and its vertices replaced by canonical pseudo-random values; plus the unmodified model"
+//@desc a model written by the library parses back to the same geometry: every vertex attribute of every part (the rewritten part and the untouched ones), every index, the declarations, mesh records and file header; i.e. the writer stores each attribute at LOD vertex offset + stream offset + element offset + stride*k in its own encoding and the reader finds it there
+#[test]
+fn native_mdl_write_parse_identity() {
+    let bytes = native_resource("c0201e0038_top_zeroed.mdl");
+    let original = MDL::from_existing(&bytes).expect("resource model parses");
+    let mut cases = 0u64;
+    let same_geometry = |a: &MDL, b: &MDL, what: &str| {
+        assert_eq!(a.file_header, b.file_header, "{what}: file header");
+        assert_eq!(a.model_data.header.vertex_declarations, b.model_data.header.vertex_declarations, "{what}: declarations");
+        assert_eq!(a.lods.len(), b.lods.len());
+        for (l, (la, lb)) in a.lods.iter().zip(b.lods.iter()).enumerate() {
+            assert_eq!(la.parts.len(), lb.parts.len(), "{what}: part count of LOD {l}");
+            for (p, (pa, pb)) in la.parts.iter().zip(lb.parts.iter()).enumerate() {
+                assert_eq!(pa.vertices.len(), pb.vertices.len(), "{what}: vertex count of LOD {l} part {p}");
+                for (k, (va, vb)) in pa.vertices.iter().zip(pb.vertices.iter()).enumerate() { assert!(va == vb, "{what}: LOD {l} part {p} vertex {k}: {va:?} != {vb:?}"); }
+                assert!(pa.indices == pb.indices, "{what}: indices of LOD {l} part {p}");
+                assert_eq!(pa.submeshes.len(), pb.submeshes.len());
+            }
+        }
+    };
+    // the unmodified model survives write + parse, and the written bytes parse to the same header
+    let rewritten = MDL::from_existing(&original.write_to_buffer().expect("write")).expect("a written model parses");
+    same_geometry(&original, &rewritten, "unmodified model");
+    cases += 1;
+    for (vi, (elements, strides)) in nmd_variants().into_iter().enumerate() {
+        for (l, p) in [(0usize, 1usize), (2, 1)] {
+            let mut mdl = MDL::from_existing(&bytes).unwrap();
+            let j = mdl.lods[l].parts[p].mesh_index as usize;
+            mdl.model_data.header.vertex_declarations[j].elements = elements.clone();
+            mdl.model_data.meshes[j].vertex_buffer_strides = strides;
+            let n = mdl.lods[l].parts[p].vertices.len();
+            mdl.lods[l].parts[p].vertices = (0..n).map(|k| nmd_vertex(&elements, k, (vi * 1000 + l) as u32)).collect();
+            mdl.update_headers();
+            let out = mdl.write_to_buffer().expect("write");
+            assert!(out.len() as u32 <= mdl.file_header.index_offsets[2] + mdl.file_header.index_buffer_size[2], "nothing is written past the last index section (layout {vi}, LOD {l})");
+            let back = MDL::from_existing(&out).expect("a written model parses");
+            same_geometry(&mdl, &back, &format!("layout {vi} on LOD {l} part {p}"));
+            cases += 1;
+        }
+    }
+    println!("NATIVE native_mdl_write_parse_identity cases={cases}");
+}
